@@ -634,6 +634,7 @@ func runC18(c *Ctx) {
 	c.publishedIDsRule("C18.P2")
 	c.transformStepsRule("C18.P1")
 	c.contextDedupRule("C18.P1")
+	c.unpublishedAllListedRule("C18.P2", pMeta)
 	c.genericIDRule("C18.P1")
 }
 
@@ -1567,4 +1568,31 @@ func (c *Ctx) genericIDRule(rule string) {
 		later = append(later, c.pos(mu.Pos())+": ["+c.Path(mu.Key, nil)+"]")
 	})
 	c.Check(rule, "generic:id-from-transformation-info", len(later) == 0, idStore.Pos(), "the id of the transformation info is the last thing stored under a possibly-\"id\" key of the result document", later...)
+}
+
+// unpublishedAllListedRule: every unpublished operation is listed: the entry for an operation is built on every
+// iteration of the converting loop, under no condition (unpublished operations carry no canonical reference — a
+// de-duplication copied from the published list keeps only the first of them).
+func (c *Ctx) unpublishedAllListedRule(rule, pMeta string) {
+	f := c.Fn(pMeta, "getUnpublishedOperations")
+	nt := c.NamedType(pMeta, "UnpublishedOperation")
+	if f == nil || nt == nil {
+		c.Unresolved(rule, "metadata.getUnpublishedOperations")
+		return
+	}
+	loopControl := regexp.MustCompile(`^\((len\(.*\) <= ι|ι < len\(.*\))\)=(true|false)$`)
+	n := 0
+	var bad []string
+	for _, h := range append([]*ssa.Function{f}, c.helpersOf(f, 1)...) {
+		for _, a := range allocsOf(h, nt) {
+			n++
+			for _, cnd := range c.condsOf(a.Block()) {
+				if loopControl.MatchString(cnd) || strings.HasPrefix(cnd, "next(range(") {
+					continue
+				}
+				bad = append(bad, cnd)
+			}
+		}
+	}
+	c.Check(rule, "unpublished:every-operation-listed", n == 1 && len(bad) == 0, f.Pos(), fmt.Sprintf("the entry of an unpublished operation is built on every iteration, unconditionally (conditions: %v)", bad))
 }
